@@ -79,7 +79,9 @@ func (s *tcpSMTP) serve(c net.Conn) {
 			switch {
 			case inTLS:
 				s.tlsCmds = append(s.tlsCmds, l)
-			case len(l) > 0 && l[0] >= 'A' && l[0] <= 'z' && !strings.ContainsAny(l, "\x00\x01\x02\x03\x16"):
+			case verbOf(l) != "?" || inData:
+				// an SMTP command (or message content behind an accepted DATA) in clear; the random bytes of a
+				// TLS ClientHello that happen to contain a line break are not
 				s.clearCmds = append(s.clearCmds, l)
 			default:
 				s.rawClear += len(line)
